@@ -27,7 +27,7 @@ import (
 
 // the stores of the DeFi modules (everything the property speaks about)
 var c20Stores = map[string]bool{"vaultV1": true, "lockerV1": true, "lendV2": true, "collectorV1": true, "liquidationV1": true, "liquidationsV2": true,
-	"auctionV1": true, "auctionsV2": true, "rewardsV1": true, "liquidityV1": true, "marketV1": true, "assetV1": true, "esmV1": true, "tokenmintV1": true, "bandoracleV1": true}
+	"auctionV1": true, "auctionsV2": true, "rewardsV1": true, "liquidityV1": true, "marketV1": true, "assetv1": true, "esmV1": true, "tokenmint": true, "bandoracleV1": true}
 
 type c20Case struct {
 	Kind  string `json:"kind"`
